@@ -37,3 +37,16 @@ pub open spec fn kzg_batch_relation(vk: &VerifierKey, cs: Seq<Commitment>, zs: S
     f_add(pair(f_neg(bc_total_w(ps, id, pos, n)), vk.beta_h@),
           pair(f_sub(f_sub(bc_total_c(cs, zs, ps, id, pos, n), f_mul(vk.g@, bc_g_mult(vs, id, pos, n))), f_mul(vk.gamma_g@, bc_gamma_mult(ps, id, pos, n))), vk.h@)) == f_zero()
 }
+
+// C02 on the raw relation (used for the challenge-combined commitment / value of the Marlin verifiers)
+pub proof fn lemma_kzg_raw_value_unique(vk: &VerifierKey, comm: FS, point: Fr, v1: FS, v2: FS, proof: &Proof)
+    requires vk.g@ != f_zero(), vk.h@ != f_zero(), kzg_relation_raw(vk, comm, point, v1, proof), kzg_relation_raw(vk, comm, point, v2, proof)
+    ensures v1 == v2
+{
+    lemma_mul_cancel(kzg_lhs_raw(vk, comm, v1, proof), kzg_lhs_raw(vk, comm, v2, proof), vk.h@);
+    let a1 = f_sub(comm, f_mul(vk.g@, v1)); let a2 = f_sub(comm, f_mul(vk.g@, v2));
+    match proof.random_v { Some(rv) => { lemma_sub_cancel_right(a1, a2, f_mul(vk.gamma_g@, rv@)); } None => {} }
+    lemma_sub_cancel_left(comm, f_mul(vk.g@, v1), f_mul(vk.g@, v2));
+    ax_mul_comm(vk.g@, v1); ax_mul_comm(vk.g@, v2);
+    lemma_mul_cancel(v1, v2, vk.g@);
+}
